@@ -5,6 +5,7 @@
 mod data;
 mod eval;
 mod exec;
+mod extract_model;
 mod follow_child;
 mod gen_query;
 mod gen_stmt;
@@ -82,6 +83,7 @@ fn main() {
         std::process::exit(2);
     }
     let code = match args[0].as_str() {
+        "C01" => dispatch(props::c01::C01, &args),
         "C03" => dispatch(props::c03::C03, &args),
         "C04" => dispatch(props::c04::C04, &args),
         "C05" => dispatch(props::c05::C05, &args),
